@@ -197,13 +197,21 @@ func (p *Plugin) Start(config pipeline.AnyConfig, params *pipeline.ActionPluginP
 
 func parseFields(fields []cfg.FieldSelector) *parsedFields {
 	f := make([]parsedField, 0, len(fields))
+	seen := make(map[string]bool, len(fields))
 	for _, fs := range fields {
 		if fs == "" {
 			continue
 		}
 		parsed := cfg.ParseFieldSelector(string(fs))
+		name := strings.Join(parsed, "_")
+		// the names are metric label names: one value per distinct name,
+		// otherwise the metric panics with inconsistent label cardinality
+		if seen[name] {
+			continue
+		}
+		seen[name] = true
 		f = append(f, parsedField{
-			name:  strings.Join(parsed, "_"),
+			name:  name,
 			value: parsed,
 		})
 	}
